@@ -1,5 +1,7 @@
 import PandoraModel.Properties.C12
 import PandoraModel.Properties.C12Kernels
+import PandoraModel.Properties.C12KernelsBounds
+import PandoraModel.Properties.C12KernelsSampled
 open Pandora.C12
 -- tie to the source
 #print axioms stems_from_source
@@ -54,3 +56,19 @@ open Pandora.C12
 #print axioms Pandora.C12Kernels.tile_eq
 #print axioms Pandora.C12Kernels.computeAmbiguity_generated_eq
 #print axioms Pandora.C12Kernels.computeRisk_generated_eq
+-- compute_interval_bounds regenerated = the hand model, for every argsort returning a permutation (Properties/C12KernelsBounds.lean)
+#print axioms Pandora.C12Kernels.iminL_eq_of
+#print axioms Pandora.C12Kernels.imaxL_eq_of
+#print axioms Pandora.C12Kernels.filter_perm_selIdx
+#print axioms Pandora.C12Kernels.computeIntervalBounds_generated_run
+#print axioms Pandora.C12Kernels.computeIntervalBounds_generated_eq_of_le
+#print axioms Pandora.C12Kernels.computeIntervalBounds_generated_eq
+#print axioms Pandora.C12Kernels.computeIntervalBounds_generated_empty
+#print axioms Pandora.C12Kernels.computeIntervalBounds_generated_shapeError_iff
+#print axioms Pandora.C12Kernels.computeIntervalBounds_generated_no_shapeError
+#print axioms Pandora.C12Kernels.computeIntervalBounds_generated_all_nan
+#print axioms Pandora.C12Kernels.computeIntervalBounds_generated_finite
+#print axioms Pandora.C12Kernels.bounds_def_generated
+#print axioms Pandora.C12Kernels.bounds_bracket_wta_generated
+-- compute_ambiguity_and_sampled_ambiguity regenerated = (pixelAmbiguity, pixelSampled) (Properties/C12KernelsSampled.lean)
+#print axioms Pandora.C12Kernels.computeAmbiguitySampled_generated_eq
